@@ -1,7 +1,7 @@
 (* C03 — property theorems (statements only; proofs live in Proofs*.v).
    All statements quantify over ALL worlds / vectors / operands, no bounds. *)
 From Coq Require Import ZArith List Bool Lia.
-From ADV Require Import C11.Model C11.Spec C03.Model C03.Spec C03.ProofsDense C03.ProofsSem C03.ProofsJoint C03.ProofsOps.
+From ADV Require Import C11.Model C11.Spec C03.Model C03.Spec C03.ProofsDense C03.ProofsSem C03.ProofsJoint C03.ProofsConv C03.ProofsOps.
 Import ListNotations.
 Open Scope Z_scope.
 
@@ -177,6 +177,30 @@ Theorem storage_independence_division : forall y w k t a b a' b',
   abs3 (fst (step3 y w (VdivV (RD k) a b))) (RD k) =
   abs3 (fst (step3 y w (VdivV (RS t) a' b'))) (RS t).
 Proof. exact storage_independence_div_lemma. Qed.
+(* ---- D. conversions keep every element ------------------------------------------
+   AsDense<T>Vector(x), x dense or sparse in any coherent state: the new dense
+   vector holds x's values, no existing value changes (the template types walk
+   x's iterator, which only removes null entries: Qw) *)
+Theorem conversion_as_dense : forall y w x,
+  match x with RS u => Inv (getv (sw w) u) /\ has (sw w) u | RD _ => True end ->
+  let r := step3 y w (AsDense x) in
+  ok_out r /\ abs3 (fst r) (RD (length (dn w))) = abs3 w x /\ Qw (sw w) (sw (fst r)) /\
+  (forall k, hasd w k -> getd (fst r) k = getd w k).
+Proof. exact step_asdense. Qed.
+(* AsSparse<T>Vector(dense): every element is kept (all positions are stored
+   explicitly), the new vector is coherent, nothing else changes *)
+Theorem conversion_as_sparse_of_dense : forall y w k,
+  WWf (sw w) ->
+  let r := step3 y w (AsSparse (RD k)) in
+  ok_out r /\ abs3 (fst r) (RS (length (vecs (sw w)))) = getd w k /\
+  Inv (getv (sw (fst r)) (length (vecs (sw w)))) /\ dn (fst r) = dn w /\
+  (forall u, has (sw w) u -> sabs (sw (fst r)) u = sabs (sw w) u).
+Proof. exact step_assparse_dense. Qed.
+(* PARTIAL: AsSparse of a sparse vector (= Clone) and NewSparse<T>Vector(indices,
+   values, n) are modelled (C11's clone / new_vec) and tied by the
+   correspondence, but "abs (clone v) = abs v" and "abs (new ks xs n) = scatter"
+   are not proved here; C11 proves that both yield coherent vectors. *)
+
 (* the hypotheses are satisfiable: a sparse receiver with a stale entry and a
    stored zero, a dense and a sparse operand *)
 Example sparse_receiver_instance :
